@@ -156,7 +156,8 @@ def e3_from_until(ctx):
     for g in ctx.ds.F.values():
         for bb, i, st in g.aggregates(r"^api_description::OrderedVersionPair$"):
             sites.append((g, bb))
-    ctx.check(R, "pair-constructed-only-in-from_until", sites and all(g is f for g, _ in sites),
+    own = [f] + ctx.ds.descendants(f)    # from_until itself or a closure of it (`(a <= b).then(|| Pair {..})`)
+    ctx.check(R, "pair-constructed-only-in-from_until", sites and all(any(g is h for h in own) for g, _ in sites),
               "aggregate sites of OrderedVersionPair: %s" % sorted(set(g.id for g, _ in sites)), f)
     priv = all(fl["vis"] != "Public" for fl in ctx.ds.adts[PAIR]["variants"][0]["fields"])
     ctx.check(R, "pair-fields-private", priv, "OrderedVersionPair field visibilities: %s" % [(fl["name"], fl["vis"].split("(")[0]) for fl in ctx.ds.adts[PAIR]["variants"][0]["fields"]], nontrivial=False)
